@@ -175,6 +175,31 @@ def ob_eval(name, ok, kind="post", detail="", inputs=None, replay=None):
     return Ob(name, kind, PROVED if ok else REFUTED, "eval", 0.0, detail, inputs or {}, replay or {})
 
 
+def lean_lemmas(pid, theorems, tier):
+    """Lemma obligations discharged by Lean 4 + Mathlib: /verif/lemmas/Lemmas.lean is re-checked by
+    `lean` (thorough tier; ~10 s warm, minutes on a cold cache) and each named theorem must be
+    reported with the three standard axioms only (no sorryAx).  Quick tier: the obligation is not
+    generated (the lemma then stays listed as an assumption)."""
+    import subprocess
+
+    if tier != "thorough":
+        return []
+    path = os.path.join(VERIF, "lemmas", "Lemmas.lean")
+    t0 = time.time()
+    try:
+        p = subprocess.run(["lean", path], capture_output=True, text=True, timeout=1500, cwd=os.path.join(VERIF, "lemmas"))
+        out = p.stdout + p.stderr
+        rc = p.returncode
+    except Exception as e:  # noqa
+        return [Ob(f"{pid}/lemma/{t}[lean4+mathlib]", "lemma", UNDECIDED, "lean4", time.time() - t0, f"lean could not be run: {e!r}") for t in theorems]
+    obs = []
+    for t in theorems:
+        line = next((l for l in out.splitlines() if l.startswith(f"'Yadism.{t}'")), "")
+        ok = rc == 0 and "error" not in out and "sorryAx" not in line and line.endswith("[propext, Classical.choice, Quot.sound]")
+        obs.append(Ob(f"{pid}/lemma/{t}[lean4+mathlib]", "lemma", PROVED if ok else UNDECIDED, "lean4", time.time() - t0, line or out[-300:]))
+    return obs
+
+
 def ob_undecided(name, detail, kind="post"):
     return Ob(name, kind, UNDECIDED, "engine", 0.0, detail)
 
@@ -314,7 +339,7 @@ class Report:
                 continue
             for sub, got, exp, opts in _triples4(p.result):
                 nm = name + (f"/{sub}" if sub else "") + suffix
-                if isinstance(got, R) or isinstance(exp, R) or (_isnum(got) and _isnum(exp)):
+                if (isinstance(got, R) or _isnum(got)) and (isinstance(exp, R) or _isnum(exp)):
                     o = ob_identity(nm, got, exp, opts.get("tol", tol), opts.get("kind", kind), pre=list(pre) + list(p.pc))
                 elif isinstance(got, B) or isinstance(exp, B):
                     from .sym import Or as _Or, And as _And
